@@ -116,8 +116,8 @@ def build():
             *final(self) == *old(self) && final(w).saves == old(w).saves, //@C11.unchanged_key_is_left_alone
         final(w).requests == old(w).requests,
 """, rewrites=[("T-FMT", r"format!\(\"new \{key_type\} account key created, using \{signature_algorithm\} as signing algorithm\"\)", "crate::opaque_string()")])})
-    u.verify(A, "Account::get_past_key", "account", props=["C11"], fns={"get_past_key": FnSpec(ret="r", sig="""
-    ensures r matches Ok(k) ==> self.past_keys@.contains(*k) && key_fp(*k) == key_hash@, //@C11.rollover_is_authorised_by_the_key_with_the_stored_fingerprint
+    u.verify(A, "Account::get_past_key", "account", props=["C11", "C04"], fns={"get_past_key": FnSpec(ret="r", sig="""
+    ensures r matches Ok(k) ==> self.past_keys@.contains(*k) && key_fp(*k) == key_hash@, //@C11.rollover_is_authorised_by_the_key_with_the_stored_fingerprint,C04.key_change_is_signed_by_the_key_the_ca_has_on_record
 """, loops={1: "    invariant key_hash@ == key_hash_0@,"}, body_start="let ghost key_hash_0 = key_hash;",
         attrs="#[verifier::loop_isolation(false)]",
         rewrites=[("T-ITER", r"for key in &self\.past_keys", "for key in it: self.past_keys.iter()"),
@@ -159,6 +159,17 @@ pub mod shims {
     impl vstd::std_specs::cmp::PartialEqSpecImpl for JwsSignatureAlgorithm {
         open spec fn obeys_eq_spec() -> bool { true }
         open spec fn eq_spec(&self, other: &JwsSignatureAlgorithm) -> bool { *self == *other }
+    }
+    // acme_common key_type.rs (unit keys): which algorithms go with a key type
+    pub uninterp spec fn alg_compatible(k: KeyType, a: JwsSignatureAlgorithm) -> bool;
+    pub uninterp spec fn default_alg_of(k: KeyType) -> JwsSignatureAlgorithm;
+    impl KeyType {
+        #[verifier::external_body]
+        pub fn check_alg_compatibility(&self, alg: &JwsSignatureAlgorithm) -> (r: Result<(), crate::acme_common::error::Error>)
+            ensures (r is Ok) == alg_compatible(*self, *alg) { unimplemented!() }
+        #[verifier::external_body]
+        pub fn get_default_signature_alg(&self) -> (r: JwsSignatureAlgorithm)
+            ensures r == default_alg_of(*self), alg_compatible(*self, r) { unimplemented!() }
     }
     pub struct KeyPair { pub key_type: KeyType, pub id: Ghost<int> }
     // verified in unit `keys`: a generated key has the requested type
